@@ -365,7 +365,14 @@ def rule_drained(R):
          "(%d such tests, %d reporting paths)%s" % (len(edges), len(outs), "" if bad is None else " — " + bad), where=b.span)
 
 
+def rule_shared_reader_reset(R):
+    """what a connection delivers does not depend on how the previous connection's last packet was split: the reader's partial-packet state never survives into the next connection -- C12's rule"""
+    from .c12 import rule_reset as _r
+    _r(R)
+
+
 def run(R):
+    R.rule("reader-reset", rule_shared_reader_reset)
     R.rule("drained", rule_drained)
     R.rule("store", rule_store)
     R.rule("replay", rule_replay)
